@@ -5,6 +5,7 @@ import Ecal.Lemmas.C08Minimal
 import Ecal.Lemmas.C08QuoteReal
 import Ecal.Lemmas.C08Templates
 import Ecal.Lemmas.C08Splice
+import Ecal.Lemmas.C08RealParse
 /-!
 # C08 — formatting preserves program meaning and is idempotent
 
@@ -413,6 +414,94 @@ theorem parser_reads_prefix (f rbp bb : Nat) (t h : Ecal.Lex.Tok) (ts' : List Ec
     Ecal.Parse.run (f+3) rbp (TP.st bb (TP.nodeOf bb t) (h :: ts')) =
       .ok ((TP.nodeOf bb t).add (some v)) (TP.st bb nxn rest) :=
   TP.run_prefix f rbp bb t h ts' v nxn rest hh hpre hole hb
+
+/-! ## parse (print e) = e on the REAL parser model
+
+`Ecal.Parse.run` is the parser model of C07 (`parse_wellformed`); `RP.realToks` assigns to every abstract token of the
+printed tree a real token of the table in Parser.lean (numbers for atoms), `RP.nodeE` is the node tree the real
+parser builds. `RP.table_agrees` (by `decide`) ties Parser.lean's table to the operator table regenerated from
+parser.go. -/
+
+/-- the heads of the real table whose keyword is parsed by ndPrefix (not `return`) -/
+def okHead : Head → Bool
+  | .atom => true
+  | .bin k => RP.okB k
+  | .pre k => RP.okP k
+
+theorem okHead_inTable (h : Head) (hk : okHead h = true) : inTable h = true := by
+  cases h with
+  | atom => decide
+  | bin k =>
+    have : k < infixOps.length := by simpa [okHead, RP.okB] using hk
+    simp only [inTable, allHeads, List.contains_eq_mem, List.mem_cons, List.mem_append, List.mem_map, List.mem_range,
+      decide_eq_true_eq]
+    exact Or.inr (Or.inl ⟨k, this, rfl⟩)
+  | pre k =>
+    have : k < prefixOps.length := by
+      simp only [okHead, RP.okP, Bool.and_eq_true, decide_eq_true_eq] at hk; exact hk.1
+    simp only [inTable, allHeads, List.contains_eq_mem, List.mem_cons, List.mem_append, List.mem_map, List.mem_range,
+      decide_eq_true_eq]
+    exact Or.inr (Or.inr ⟨k, this, rfl⟩)
+
+theorem pIn_annotW (br : Head → Head → Nat → Bool → Bool) (e : Expr) (h : headsIn okHead e = true) :
+    RP.pIn RP.okB RP.okP (annotW realPowers realExc br e) = true := by
+  induction e with
+  | atom n => rfl
+  | bin k l r ihl ihr =>
+    simp only [headsIn, Bool.and_eq_true, okHead] at h
+    have hw : ∀ b p, RP.pIn RP.okB RP.okP (wrap b p) = RP.pIn RP.okB RP.okP p := by
+      intro b p; cases b <;> simp [wrap, RP.pIn]
+    simp only [annotW, RP.pIn, hw, h.1.1, ihl h.1.2, ihr h.2, Bool.and_self]
+  | pre k x ih =>
+    simp only [headsIn, Bool.and_eq_true, okHead] at h
+    have hw : ∀ b p, RP.pIn RP.okB RP.okP (wrap b p) = RP.pIn RP.okB RP.okP p := by
+      intro b p; cases b <;> simp [wrap, RP.pIn]
+    simp only [annotW, RP.pIn, hw, h.1, ih h.2, Bool.and_self]
+
+/-- **parse (print e) = e on the real parser model, with the rule the printer models run.** For every operator
+    tree `e` of any depth over the real table (infix operators; prefix `+ - not let` and the sink attributes; number
+    atoms), outside the known class mul-right-brackets: the REAL parser model `Ecal.Parse.run`, started on the real
+    tokens of the printed tree (parentheses by `realBr`, the rule extracted from prettyprinter.go) followed by an
+    end-of-input token, returns exactly the node tree of `e` and stops at the end token — for every fuel from
+    `1 + cost` on.
+    (`_partial`: `return <value>` operands, identifier atoms with their call / access chains, comments and line
+    breaks inside the expression are not covered; the printed TEXT is tied to these tokens by the correspondence run
+    and by `quote_lex_roundtrip` for string atoms, not by a lexer theorem.) -/
+theorem print_parse_expr_real_parser_partial (e : Expr) (hin : headsIn okHead e = true)
+    (hne : hasExc realPowers realExc e = false) (eof : Ecal.Lex.Tok) (heof : TP.Real eof)
+    (hb : (TP.nodeOf 0 eof).binding = 0) (F : Nat)
+    (hF : 1 + RP.cost (annotW realPowers realExc realBr e) ≤ F) :
+    Ecal.Parse.run F 0 (TP.st 0 (TP.nodeOf 0 (RP.hdT RP.realToks (annotW realPowers realExc realBr e)))
+        (RP.tlT RP.realToks (annotW realPowers realExc realBr e) ++ [eof])) =
+      .ok (RP.nodeE RP.realToks e) (TP.st 0 (TP.nodeOf 0 eof) []) := by
+  have hin' : headsIn inTable e = true := by
+    clear hne hF
+    induction e with
+    | atom n => rfl
+    | bin k l r ihl ihr =>
+      simp only [headsIn, Bool.and_eq_true] at hin ⊢
+      exact ⟨⟨okHead_inTable _ hin.1.1, ihl hin.1.2⟩, ihr hin.2⟩
+    | pre k x ih =>
+      simp only [headsIn, Bool.and_eq_true] at hin ⊢
+      exact ⟨okHead_inTable _ hin.1, ih hin.2⟩
+  have hok := annotW_ok realPowers realExc realBr inTable real_bp_pos real_rule_suffices e 0 0 hin' hne
+    (adm_zero realPowers real_bp_pos e)
+  have := RP.real_ok_parses RP.realToks realPowers RP.okB RP.okP RP.good_realToks
+    (annotW realPowers realExc realBr e) 0 0 0 (Nat.le_refl _) hok (pIn_annotW realBr e hin) eof []
+    (.ok (RP.nodeE RP.realToks e) (TP.st 0 (TP.nodeOf 0 eof) [])) 1 heof (Nat.le_of_eq hb)
+    (by
+      intro F2 hF2
+      obtain ⟨f2, rfl⟩ : ∃ f2, F2 = f2 + 1 := ⟨F2 - 1, by omega⟩
+      rw [strip_annotW]
+      exact TP.loopLed_stop f2 0 0 _ _ [] (Nat.le_of_eq hb))
+    F hF
+  exact this
+
+/-- non-vacuity: `2 * (3 + 4) <EOF>` and `not (1 and 2)`-shaped trees satisfy the hypotheses -/
+example : headsIn okHead (Expr.bin iTimes (.atom 2) (.bin 0 (.atom 3) (.atom 4))) = true ∧
+    hasExc realPowers realExc (Expr.bin iTimes (.atom 2) (.bin 0 (.atom 3) (.atom 4))) = false ∧
+    TP.Real (RP.mkTok 1) ∧ (TP.nodeOf 0 (RP.mkTok 1)).binding = 0 := by
+  refine ⟨by decide, by decide, by unfold TP.Real; decide, by decide⟩
 
 /-- non-vacuity: the tokens `true <EOF>` and `not true <EOF>` satisfy the hypotheses — `not true` is read
     back as `not(true)` by instantiating both lemmas -/
